@@ -1,3 +1,4 @@
 import Obl.Wire
 import Obl.Hop
 import Obl.Proto
+import Obl.Sub
